@@ -248,7 +248,7 @@ def parse_dump(out):
     rounds = {}
     for e in m.group(1).split():
         k, v = e.split("=")
-        rounds[k] = set(v.split(",")) if v else set()
+        rounds[k] = set(x.split("/")[0] for x in v.split(",")) if v else set()     # "signer/first bytes of the cached partial"
     return rounds
 
 
